@@ -185,10 +185,7 @@ func c04(c *core.Ctx) {
 					case *ssa.Call:
 						ci := core.InfoOf(&x.Call)
 						if ci.Is("sync.WaitGroup.Wait") {
-							recv := ""
-							if fn.Signature.Recv() != nil {
-								recv = core.NamedOf(fn.Signature.Recv().Type())
-							}
+							recv := core.RecvName(fn)
 							// tabled: client stream Header() waits for onReady, which every path of the response reader calls right after RoundTrip (ctx-bound)
 							if fn.Name() == "Header" && recv != "" && readyDoneOnAllPaths(p, fn) {
 								c.Ok(key+":waitgroup", x.Pos(), "tabled: released by the response reader on every path after the ctx-bound RoundTrip")
@@ -569,8 +566,7 @@ func c04(c *core.Ctx) {
 			if pkgSuffixOf(nt) != "inprocgrpc" {
 				continue
 			}
-			for i := 0; i < nt.NumMethods(); i++ {
-				fn := p.SSA.FuncValue(nt.Method(i))
+			for _, fn := range typeFuncs(p, nt) {
 				if fn == nil || fn.Blocks == nil {
 					continue
 				}
@@ -611,8 +607,8 @@ func c04(c *core.Ctx) {
 		// in-process client: returns of a received frame's err
 		for _, fn := range p.LibFuncs("inprocgrpc") {
 			isClientSide := false
-			if fn.Signature.Recv() != nil {
-				rn := core.NamedOf(fn.Signature.Recv().Type())
+			if core.RecvName(fn) != "" {
+				rn := core.RecvName(fn)
 				for _, nt := range streamTypes(p, "ClientStream", "RecvMsg") {
 					if nt.Obj().Name() == rn {
 						isClientSide = true
